@@ -312,7 +312,9 @@ fn gen_c16(rng: &mut Rng, tier: Tier) -> Spec {
                 }
                 _ => {
                     // reads of single records and batches are what the statement is about
-                    let r = match rng.below(6) {
+                    let r = match rng.below(7) {
+                        // user-state queries go to the database but FILL the cache with what they found
+                        6 => MOp::UserState(rng.below(3) as usize, gen_flag(rng)),
                         0 | 1 => MOp::GetNode(rng.below(N_NODES as u64) as usize),
                         2 => MOp::GetValue(rng.below(3) as usize, rng.range(1, MAX_EPOCH)),
                         3 => MOp::GetAzks,
@@ -525,7 +527,15 @@ async fn do_read(op: &MOp, mgr: &StorageManager<SimDb>, store: &SimStore, sh: &A
         MOp::UserState(u, f) => {
             let user = AkdLabel(USERS[*u].to_vec());
             let flag = to_flag(*f);
-            differential!(nf(mgr.get_user_state(&user, flag).await), |rm: &StorageManager<SimDb>| { let rm = rm.clone(); let user = user.clone(); async move { nf(rm.get_user_state(&user, flag).await) } }, |x| x);
+            let got = mgr.get_user_state(&user, flag).await;
+            if concurrent {
+                // the state handed back is one record of the key (user, its epoch): the staleness oracle below applies to it
+                if let Ok(st) = &got {
+                    let rec = DbRecord::ValueState(st.clone());
+                    got_records = Some(vec![(rec.get_full_binary_id(), Some(rec))]);
+                }
+            }
+            differential!(nf(got), |rm: &StorageManager<SimDb>| { let rm = rm.clone(); let user = user.clone(); async move { nf(rm.get_user_state(&user, flag).await) } }, |x| x);
         }
         MOp::UserData(u) => {
             let user = AkdLabel(USERS[*u].to_vec());
